@@ -57,4 +57,19 @@ def sec2ttlJudge (s : Int) (minutes : Nat) : Option String :=
   if s ≤ 0 then none
   else if secondsCovered s.toNat minutes then none else some "sec2ttl/rounds-down"
 
+/-! ## Filer clause: "an entry that is still visible never points at expired data" -/
+
+/-- the TTL promise of an entry: created at `crtime` with `ttlSec` seconds — it, and with it its first chunk, is
+    due at `crtime + ttlSec`; later modifications do not extend it -/
+def entryDue (ttlSec crtime : Nat) (nowNs : Nat) : Bool :=
+  ttlSec ≠ 0 && decide ((crtime + ttlSec) * nsPerSec < nowNs)
+
+/-- Judge of one visibility observation (FindEntry or listing) of an entry whose current incarnation was created at
+    `crtime` with TTL `ttlSec`. -/
+def visibilityJudge (ttlSec crtime nowNs : Nat) (implVisible : Bool) : Option String :=
+  if entryDue ttlSec crtime nowNs then
+    (if implVisible then some "filer/entry-visible-after-ttl" else none)
+  else
+    (if implVisible then none else some "filer/entry-expired-before-ttl")
+
 end SwV.Spec.C09
